@@ -219,9 +219,12 @@ func verifProducer() *Producer {
 }
 
 // verifProducerOpt: producers with different public options (0 default, 1 no dictionaries + unsorted spans,
-// 2 8-bit dictionary limit).
+// 2 8-bit dictionary limit, 3 a dictionary limit that is not one of the index-type capacities, set through a
+// caller-written Option).
 func verifProducerOpt(k int) *Producer {
 	switch k {
+	case 3:
+		return NewProducerWithOptions(cfg.WithNoZstd(), func(c *cfg.Config) { c.LimitIndexSize = 1000 })
 	case 1:
 		return NewProducerWithOptions(cfg.WithNoZstd(), cfg.WithNoDictionary(), cfg.WithOrderSpanBy(cfg.OrderSpanByNothing))
 	case 2:
@@ -247,18 +250,44 @@ func verifRoundTrip(p *Producer, c *Consumer, td ptrace.Traces, tag string) {
 	if err != nil {
 		return
 	}
-	out, err := c.TracesFrom(bar)
-	rt.Assert(err == nil, tag+".decode_ok")
-	if err != nil {
+	verifDecodeStep(func() {
+		out, err := c.TracesFrom(bar)
+		rt.Assert(err == nil, tag+".decode_ok")
+		if err != nil {
+			return
+		}
+		if len(verifFlatten(orig)) == 0 {
+			return // an empty batch decodes to nothing
+		}
+		rt.Assert(len(out) == 1, tag+".one_result")
+		if len(out) == 1 {
+			verifCheckTraces(orig, out[0], tag)
+		}
+	})
+}
+
+// The producer may run ahead of the consumer (batches queued, retried, recorded): with verifAhead set the
+// decode-and-compare half of every round trip is postponed until verifFlushAhead, so that ALL batches of the
+// harness are encoded before the first one is decoded; every batch must still decode to what it encoded.
+var (
+	verifAhead   bool
+	verifPending []func()
+)
+
+func verifDecodeStep(f func()) {
+	if verifAhead {
+		verifPending = append(verifPending, f)
 		return
 	}
-	if len(verifFlatten(orig)) == 0 {
-		return // an empty batch decodes to nothing
+	f()
+}
+
+func verifFlushAhead() {
+	for _, f := range verifPending {
+		f()
 	}
-	rt.Assert(len(out) == 1, tag+".one_result")
-	if len(out) == 1 {
-		verifCheckTraces(orig, out[0], tag)
-	}
+	verifPending = nil
+	verifAhead = false
 }
 
 var verifSpanSeq byte
